@@ -99,6 +99,18 @@ def check_votes(acc, ename, cmode, shape, vals, w):
         with warnings.catch_warnings():
             warnings.simplefilter("ignore")
             y_in, w_in = y.copy(), (None if wa is None else wa.copy())
+            if wa is not None and y.ndim == 2:
+                # arrays with a different memory layout (transposed views / Fortran order) are the same arrays
+                for ylay, wlay in (("C", "F"), ("F", "C"), ("F", "F")):
+                    yl = np.asfortranarray(y) if ylay == "F" else np.ascontiguousarray(y)
+                    wl = np.asfortranarray(wa) if wlay == "F" else np.ascontiguousarray(wa)
+                    vl = compute_vote_vectors(yl.copy(order="K"), w=wl.copy(order="K"), classes=classes, missing_label=e["ml"])
+                    v0 = compute_vote_vectors(y.copy(), w=wa.copy(), classes=classes, missing_label=e["ml"])
+                    acc.transitions += 2
+                    if np.asarray(vl).shape != np.asarray(v0).shape or not np.array_equal(np.asarray(vl, dtype=float), np.asarray(v0, dtype=float)):
+                        acc.violation("compute_vote_vectors", "depends_on_memory_layout", "y in %s order, w in %s order: %s; both C order: %s" % (
+                            ylay, wlay, np.asarray(vl).tolist(), np.asarray(v0).tolist()), wit, replay=rep, size=size)
+                        break
             v = compute_vote_vectors(y_in, w=w_in, classes=classes, missing_label=e["ml"])
             same_y = np.array_equal(y_in, y, equal_nan=True) if y.dtype.kind == "f" else np.array_equal(y_in, y)
             if not same_y or (w_in is not None and not np.array_equal(w_in, wa, equal_nan=True)):
